@@ -43,7 +43,7 @@ def product_cases(rng, tier):
 
     def add(keys, vals):
         n = len(keys)
-        base = C01.draw_cover(rng, keys, vals, mbn if n <= 8 else None, embs)
+        base = C01.draw_cover(rng, keys, vals, mbn if n <= 8 else None, embs, strategy=False)
         base["kcont"], base["mcont"] = "np", "np"
         base["keys"] = [[k[0]] for k in base["keys"]]
         base["kenc"] = base["kenc"][:1]
@@ -155,7 +155,8 @@ def run(tier):
                 keys = sorted(keys, key=lambda k: (k == NULL, k))       # a group absent from whole blocks
             emb = rng.pick(["f64", "i64", "M8ns"])
             vals = C.adapt_vals(rng, [rng.pick(C.VALS) for _ in range(n)], emb)
-            c = C.base_case(rng.pick([o for o in OPS if C.api_supported(o, emb)]), keys, vals, emb=emb)
+            # (a sum of 10^5..10^6 timestamps of about 2^55 ns does not fit 64 bits: not a meaningful input)
+            c = C.base_case(rng.pick([o for o in OPS if C.api_supported(o, emb) and not (o == "sum" and emb == "M8ns")]), keys, vals, emb=emb)
             c["mult"] = m
             if NULL not in keys and rng.random() < 0.3:
                 c["kcont"], c["nchunks"] = "pachunk", rng.pick([2, 3])
